@@ -108,6 +108,7 @@ def validate(traces, name='session', keep=False, workers=1):
         acc.add(i)
         for mn in proto[i]['msgs']:
             acc.add(mn)
+    acc.update(['new', 'destroyed', '(none)', 'INVALID ENUM VALUE', 'PARSED', 'unknown'])
     acc.discard('')
     data = {'dict': {s: list(s) for s in acc}, 'proto': proto, 'traces': traces}
     path = os.path.join(TMP, '%s-%d-%d.json' % (name, os.getpid(), int(time.time() * 1000) % 100000000))
@@ -128,6 +129,9 @@ def validate(traces, name='session', keep=False, workers=1):
     v.states, v.transitions, v.wall = r.distinct, r.generated, r.wall
     for t in tlc.printed_tuples(r.stdout, 'FAIL'):
         v.fails.append((t[0], t[1], sorted(tlc.unset(t[2]))))
+    v.expect = {}
+    for t in tlc.printed_tuples(r.stdout, 'EXPECT'):
+        v.expect[(t[0], t[1])] = (t[2], tlc.unset(t[3]))
     for t in tlc.printed_tuples(r.stdout, 'DONE'):
         v.done.add(t[0])
     if r.violated:
